@@ -86,14 +86,32 @@ func faultTarget(fed *federation, r *recorded) string {
 	return "root"
 }
 
+// batchIndex: which document of a batched single-entity lookup this is (from its first alias _N)
+func batchIndex(r *recorded) int {
+	q := strings.TrimSpace(r.Query)
+	i := strings.Index(q, "{ _")
+	if i < 0 {
+		return 0
+	}
+	n := 0
+	for _, c := range q[i+3:] {
+		if c < '0' || c > '9' {
+			break
+		}
+		n = n*10 + int(c-'0')
+	}
+	return n / 50
+}
+
 func makeFaultFor(fed *federation, faults []faultSpec) func(r *recorded) *fault {
 	if len(faults) == 0 {
 		return nil
 	}
 	return func(r *recorded) *fault {
 		t := faultTarget(fed, r)
+		tb := fmt.Sprintf("%s#%d", t, batchIndex(r))
 		for _, f := range faults {
-			if f.Svc == r.Svc && (f.Target == "*" || f.Target == t) {
+			if f.Svc == r.Svc && (f.Target == "*" || f.Target == t || f.Target == tb) {
 				return &fault{Kind: f.Kind}
 			}
 		}
@@ -213,7 +231,7 @@ func emitE2ECase(env *e2eEnv, run *e2eRun, o e2eCaseOpts) string {
 				declared = append(declared, vd.Variable)
 			}
 		}
-		reqs = append(reqs, "{| or_varnames := "+cstrlist(sortedKeys(r.Variables))+"; or_declared := "+cstrlist(declared)+"; or_url := "+cstr(r.URL)+"; or_optype := "+cstr(r.OpType)+"; or_keyword := "+cOpKind(info.Keyword)+
+		reqs = append(reqs, "{| or_varnames := "+cstrlist(sortedKeys(r.Variables))+"; or_declared := "+cstrlist(declared)+"; or_batch := "+fmt.Sprint(batchIndex(r))+"; or_url := "+cstr(r.URL)+"; or_optype := "+cstr(r.OpType)+"; or_keyword := "+cOpKind(info.Keyword)+
 			"; or_valid := "+cbool(r.Valid)+"; or_root := "+cstr(info.Root)+"; or_doc := "+doc+
 			";\n       or_is_lookup := "+cbool(info.IsLookup)+"; or_parent := "+cstr(info.Parent)+"; or_sel := "+cSelSet(info.Sel)+"; or_ids := "+cstrlist(info.IDs)+
 			";\n       or_reply_data := "+replyData+"; or_reply_nerrs := "+fmt.Sprint(nerrs)+"; or_fault := "+flt+" |}")
